@@ -17,14 +17,16 @@ F = ['Position::makeMove (position.cpp:231-298)', 'Position::unMakeMove (301-344
      'Position::setEpSquare/setCastleMask/setWhiteMove (position.hpp)', 'MatId::addPiece/removePiece (material.hpp)', 'Position::castleSqMask, psHashKeys, castleHashKeys, epHashKeys (dumped real tables)', 'BitBoard::epMaskW/epMaskB']
 
 def build(tier):
-    u = Unit('pos', 'C02/pos.cpp', ['h_matid', 'h_step', 'h_setpiece', 'h_edits', 'h_scratchhash', 'h_serialize'],
+    u = Unit('pos', 'C02/pos.cpp', ['h_matid', 'h_step', 'h_undo', 'h_setpiece', 'h_edits', 'h_scratchhash', 'h_serialize'],
              allow_extern=[r'_ZN11NNEvaluator.*'])   # behind if(nnEval): nnEval is concretely nullptr in every harness
     kinds = ['white piece', 'white king (incl. castling)', 'white pawn (push, double push, capture, en passant, promotion)',
              'black piece', 'black king (incl. castling)', 'black pawn (push, double push, capture, en passant, promotion)']
     obs = [Ob('O2-matid', u, 'h_matid', 'MatId::addPiece/removePiece: no signed overflow and exact id arithmetic for every legal material; mirror swaps halves',
               unwind=14, functions=F[4:5], bounds='all piece-count vectors legal play can produce (up to 9 queens / 10 of a kind per side)', site='material.hpp:MatId::addPiece')]
     for k in range(6):
-        obs.append(Ob('O1-step@%d' % k, u, 'h_step', 'make/unmake step, mover = ' + kinds[k] + ': frame, local invariant, key/sum deltas, rules, invariant preservation, exact undo',
+        obs.append(Ob('O1-undo@%d' % k, u, 'h_undo', 'makeMove then unMakeMove, mover = ' + kinds[k] + ': every field of the state (all 64 squares, 12 piece sets, keys, sums, counters, flags) is bit-identical to the pre-state',
+                      unwind=65, param=k, timeout=1800, mem_gb=12, functions=F, backend='kissat', bounds='arbitrary state (64 symbolic squares, 12 symbolic piece sets, symbolic keys/sums/counters); any from/to/promotion of the shape class'))
+        obs.append(Ob('O1-step@%d' % k, u, 'h_step', 'makeMove step, mover = ' + kinds[k] + ': frame, local invariant, key/sum deltas, rules, invariant preservation, undo record',
                       unwind=65, param=k, timeout=1800, mem_gb=12, functions=F, backend='kissat', bounds='arbitrary state (64 symbolic squares, 12 symbolic piece sets, symbolic keys/sums/counters); any from/to/promotion of the shape class'))
     names = ['setPiece', 'clearPiece', 'movePieceNotPawn']
     for k in range(3):
